@@ -10,11 +10,11 @@ CHECKS = {
          'Runtime monitoring of the real binary at all three levels on generated programs x inputs; the reference interpreter admits cases (predicts termination) and classifies which optimiser mechanisms each execution exercised; non-terminating programs are checked for prefix-compatible output.', '6 C02'),
  'C04': ('reference-model monitor over recorded parse results: hv_parse dump of parse::parse on generated Unicode texts vs an independent tokenise-and-split reference parser; `hyeong check` exit/row count',
          'Runtime monitoring of the real parser on tens of thousands of generated texts (biased alphabet, noise before the first command, stray start syllables, long area chains, big counts): every field of every command compared with an independent parser; crashes are violations.', '6 C04'),
- 'C05': ('reference-model monitor on API results: BigNum operation scripts executed by hv_num (overflow-checking build) vs Python int; Display, is_pos, is_zero and == against from_vec expectations',
+ 'C05': ('reference-model monitor on API results: BigNum operation scripts (fresh operands, very long operands, and object histories over registers with in-place operations and aliasing) executed by hv_num (overflow-checking build) vs Python int; Display, is_pos, is_zero and == against from_vec expectations',
          'Runtime monitoring of the real BigNum code on generated operand pairs at carry/borrow boundaries, all sign combinations and lengths, including in-place variants, gcd and the isize constructor; thorough adds a release-build slice and a Miri slice.', '6 C05'),
- 'C06': ('reference-model + invariant monitor: Num operation sequences executed by hv_num vs Fraction with absorbing NaN, canonical-form monitor on every printed result, structural equality vs alternative constructions',
+ 'C06': ('reference-model + invariant monitor: Num operation sequences and object histories (the same objects rendered, compared and changed in place repeatedly) executed by hv_num vs Fraction with absorbing NaN, canonical-form monitor on every printed result, structural equality vs alternative constructions',
          'Runtime monitoring of the real Num code over random operation sequences (depth <= 6): exact value, canonical form, NaN absorption, floor and sign test observed on every result.', '6 C06'),
- 'C07': ('reference-model monitor: Num::partial_cmp/== on generated ordered pairs vs Fraction order, plus hv_trace step records of programs whose ?/! areas sit on plain pushes (branch taken = numeric order)',
+ 'C07': ('reference-model monitor: Num::partial_cmp/== on generated ordered pairs (a quarter of them nearly equal: continued-fraction neighbours) and inside object histories vs Fraction order, plus hv_trace step records of programs whose ?/! areas sit on plain pushes (branch taken = numeric order)',
          'Runtime monitoring of comparisons at API level (all sign/size/NaN combinations) and at program level (which branch real executions take against counts 1..200 with integer, fractional, negative and NaN operands).', '6 C07'),
  'C08': ('round-trip monitor: noisy renderer -> real parser identity, re-parse of concatenated reported raw texts, and a reader of the `hyeong check` listing that must reproduce every command',
          'Runtime monitoring of the real parser/check front end on generated command lists rendered with noise in every place the grammar ignores; three oracles (identity, idempotent re-parse, listing determines command) over thousands of lists.', '6 C08'),
